@@ -14,16 +14,18 @@ From Verif Require Import Base.Effects Calcium.World Calcium.Ops Calcium.Run Cal
 Import ListNotations.
 Local Open Scope Z_scope.
 
-(* the calls a [crunk] run makes *)
+(* the fault positions (faultable calls) a [crunk] run passes *)
 Fixpoint calls_of {A} (p : cprog A) (w : world) (k : option nat) : list call :=
   match p with
   | Ret _ => []
   | Do c q =>
-    c :: match k with
-         | Some O => calls_of (q (fail_reply c)) w None
-         | Some (S j) => let (w', r) := exec w c in calls_of (q r) w' (Some j)
-         | None => let (w', r) := exec w c in calls_of (q r) w' None
-         end
+    if is_faultable c then
+      c :: match k with
+           | Some O => calls_of (q (fail_reply c)) w None
+           | Some (S j) => let (w', r) := exec w c in calls_of (q r) w' (Some j)
+           | None => let (w', r) := exec w c in calls_of (q r) w' None
+           end
+    else let (w', r) := exec w c in calls_of (q r) w' k
   end.
 
 Definition ncalls {A} (p : cprog A) (w : world) : nat := length (calls_of p w None).
@@ -66,15 +68,17 @@ Fixpoint waited_of {A} (p : cprog A) (w : world) (k : option nat) : list wid :=
   match p with
   | Ret _ => []
   | Do c q =>
-    match k with
-    | Some O => waited_of (q (fail_reply c)) w None
-    | Some (S j) =>
-      let (w', r) := exec w c in
-      (match c, r with EWait id, RCode _ => [id] | _, _ => [] end) ++ waited_of (q r) w' (Some j)
-    | None =>
-      let (w', r) := exec w c in
-      (match c, r with EWait id, RCode _ => [id] | _, _ => [] end) ++ waited_of (q r) w' None
-    end
+    if is_faultable c then
+      match k with
+      | Some O => waited_of (q (fail_reply c)) w None
+      | Some (S j) =>
+        let (w', r) := exec w c in
+        (match c, r with EWait id, RCode _ => [id] | _, _ => [] end) ++ waited_of (q r) w' (Some j)
+      | None =>
+        let (w', r) := exec w c in
+        (match c, r with EWait id, RCode _ => [id] | _, _ => [] end) ++ waited_of (q r) w' None
+      end
+    else let (w', r) := exec w c in waited_of (q r) w' k
   end.
 
 (* ---- scenarios ---- *)
@@ -157,8 +161,10 @@ Lemma runk_beyond : forall A (p : cprog A) w k,
 Proof.
   unfold ncalls, crunk. induction p as [a|c q IH]; intros w k Hk; simpl in *.
   - auto.
-  - destruct k as [|j]; [lia|].
-    destruct (exec w c) as [w' r]. apply IH. simpl in Hk. lia.
+  - destruct (is_faultable c).
+    + destruct k as [|j]; [simpl in Hk; lia|].
+      destruct (exec w c) as [w' r]. apply IH. simpl in Hk. lia.
+    + destruct (exec w c) as [w' r]. apply IH. exact Hk.
 Qed.
 
 Lemma forallb_seq : forall (f : nat -> bool) n, forallb f (seq 0 n) = true -> forall k, (k < n)%nat -> f k = true.
@@ -227,7 +233,9 @@ Lemma waited_beyond : forall A (p : cprog A) w k, (ncalls p w <= k)%nat ->
   waited_of p w (Some k) = waited_of p w None.
 Proof.
   unfold ncalls. induction p as [a|c q IH]; intros w k Hk; simpl in *; [reflexivity|].
-  destruct k as [|j]; [lia|]. destruct (exec w c) as [w' r]. f_equal. apply IH. simpl in Hk. lia.
+  destruct (is_faultable c).
+  - destruct k as [|j]; [simpl in Hk; lia|]. destruct (exec w c) as [w' r]. f_equal. apply IH. simpl in Hk. lia.
+  - destruct (exec w c) as [w' r]. apply IH. exact Hk.
 Qed.
 
 (* C12 (and the usage invariant) for every fault position of every create scenario *)
